@@ -10,18 +10,15 @@ Lemma live_with_hp : forall s h n, live (with_hp s h) n = live s n.
 Proof. reflexivity. Qed.
 
 (* invariants that only depend on the structure *)
-Lemma struct_inv : forall s h', same_struct (hp s) h' -> I0 s -> closed_heap s -> no_hollow s ->
-  I0 (with_hp s h') /\ closed_heap (with_hp s h') /\ no_hollow (with_hp s h').
+Lemma struct_inv : forall s h', same_struct (hp s) h' -> I0 s -> closed_heap s ->
+  I0 (with_hp s h') /\ closed_heap (with_hp s h').
 Proof.
-  intros s h' S H0 [C1 [C2 C3]] NH. split; [|split].
+  intros s h' S H0 [C1 [C2 C3]]. split.
   - intros p c Hc L. cbn in *. eapply H0; [|exact L]. eapply same_struct_child; [apply same_struct_sym; exact S|exact Hc].
   - split.
     + intros p c Hc. cbn in *. eapply same_struct_some; [exact S|]. eapply C1.
       eapply same_struct_child; [apply same_struct_sym; exact S|exact Hc].
     + split; [|exact C3]. intros n Hn. cbn in *. apply C2. eapply same_struct_some; [apply same_struct_sym; exact S|exact Hn].
-  - intros n Hn Ho. cbn in *. eapply NH.
-    + eapply same_struct_some; [apply same_struct_sym; exact S|exact Hn].
-    + eapply same_struct_hollow; [apply same_struct_sym; exact S|exact Ho].
 Qed.
 
 Lemma children_exist_of_closed : forall s, closed_heap s -> children_exist (hp s).
@@ -33,36 +30,30 @@ Proof. intros s n [_ [C _]]. apply C. Qed.
 (* ---------------------------------------------------------------------------------------------- lock_ *)
 Lemma plock_inv : forall fuel s n ps h', Inv s -> plock fuel (hp s) n ps = Some h' -> Inv (with_hp s h').
 Proof.
-  intros fuel s n ps h' [HI1 HI0 HC HN] P.
+  intros fuel s n ps h' [HI1 HI0 HC] P.
   assert (G : grows (hp s) h') by (eapply plock_grows; exact P).
-  destruct (struct_inv s h' (g_struct _ _ G) HI0 HC HN) as (A & B & C).
-  split; [|exact A|exact B|exact C].
+  destruct (struct_inv s h' (g_struct _ _ G) HI0 HC) as (A & B).
+  split; [|exact A|exact B].
   intros p F L nd' c E' Hc. cbn in *.
   pose proof (g_struct _ _ G p) as Hs. unfold same_node_structure in Hs. rewrite E' in Hs.
   destruct (lookup (hp s) p) as [nd|] eqn:E; [|contradiction]. destruct Hs as [Hk He].
   assert (Hc0 : In c (node_children nd)) by (unfold node_children in *; rewrite He; exact Hc).
-  destruct (g_node _ _ G p nd nd' E E') as (_ & Mm & _ & _).
   destruct (flag_true (hp s) p) eqn:F0.
-  - destruct (HI1 p F0 L nd c E Hc0) as [M|[Fc Pc]].
-    + left. congruence.
-    + right. split; [eapply grows_flag; eassumption|eapply grows_has_parent; eassumption].
-  - right. destruct (plock_new_closed _ _ _ _ _ (children_exist_of_closed _ HC) P p F0 F nd' c E' Hc) as [Fc [Pc|Ho]].
-    + split; assumption.
-    + exfalso. eapply HN.
-      * destruct HC as [C1 _]. eapply C1. eapply child_intro; eassumption.
-      * eapply same_struct_hollow; [apply same_struct_sym; apply G|exact Ho].
+  - destruct (HI1 p F0 L nd c E Hc0) as [Fc Pc].
+    split; [eapply grows_flag; eassumption|eapply grows_has_parent; eassumption].
+  - apply (plock_new_closed _ _ _ _ _ (children_exist_of_closed _ HC) P p F0 F nd' c E' Hc).
 Qed.
 
 Lemma lock_inv : forall fuel s n h', Inv s -> lock_ fuel (hp s) n = Some h' -> Inv (with_hp s h').
 Proof.
-  intros fuel s n h' HI L. unfold lock_ in L. destruct (is_locked fuel (hp s) n) as [[|]|]; [| |discriminate].
+  intros fuel s n h' HI L. unfold lock_ in L. destruct (flag_true (hp s) n).
   - inversion L. subst. rewrite with_hp_id. exact HI.
   - eapply plock_inv; eassumption.
 Qed.
 
 Lemma lock_grows : forall fuel h n h', lock_ fuel h n = Some h' -> grows h h'.
 Proof.
-  intros fuel h n h' L. unfold lock_ in L. destruct (is_locked fuel h n) as [[|]|]; [| |discriminate].
+  intros fuel h n h' L. unfold lock_ in L. destruct (flag_true h n).
   - inversion L. apply grows_refl.
   - eapply plock_grows; exact L.
 Qed.
@@ -107,7 +98,7 @@ Proof.
   destruct (check_all fuel (with_hp s h1) (subs ++ [n])) as [[s2 r]|] eqn:CA; [|discriminate].
   destruct (punlock_spec _ _ _ _ _ PU) as (Un & Fr & Cl & Sub & Dp).
   destruct (check_all_spec _ _ _ _ _ CA) as [Ck Hall].
-  destruct HI as [HI1 HI0 HC HN].
+  destruct HI as [HI1 HI0 HC].
   assert (S01 : same_struct (hp s) h1) by apply Un.
   assert (S12 : same_struct h1 (hp s2)) by apply Ck.
   assert (S02 : same_struct (hp s) (hp s2)) by (eapply same_struct_trans; eassumption).
@@ -137,62 +128,47 @@ Proof.
   - (* some check failed: self is re-locked *)
     destruct (lock_ fuel (hp s2) n) as [h3|] eqn:LK; [|discriminate]. inversion U. subst s' out. clear U.
     assert (P : plock fuel (hp s2) n None = Some h3).
-    { unfold lock_ in LK. destruct (is_locked fuel (hp s2) n) as [[|]|] eqn:IL; [| |discriminate]; [|exact LK].
-      assert (true = false); [|discriminate]. eapply is_locked_cleared; [|exact IL].
-      intros x R. rewrite (chk_flag _ _ _ Ck). cbn. apply Cl.
-      eapply same_struct_reach; [apply same_struct_sym; exact S02|exact R]. }
+    { unfold lock_ in LK. rewrite (chk_flag _ _ _ Ck) in LK. cbn in LK. rewrite (Cl n (Reach_refl _ n)) in LK. exact LK. }
     assert (G : grows (hp s2) h3) by (eapply plock_grows; exact P).
     assert (S03 : same_struct (hp s) h3) by (eapply same_struct_trans; [exact S02|apply G]).
     rewrite Es2. cbn.
-    destruct (struct_inv s h3 S03 HI0 HC HN) as (A & B & C).
-    split; [|exact A|exact B|exact C].
+    destruct (struct_inv s h3 S03 HI0 HC) as (A & B).
+    split; [|exact A|exact B].
     intros p F3 L nd3 c E3 Hc. cbn in *.
     pose proof (S03 p) as Hs. unfold same_node_structure in Hs. rewrite E3 in Hs.
     destruct (lookup (hp s) p) as [nd|] eqn:E; [|contradiction]. destruct Hs as [Hk He].
     assert (Hc0 : In c (node_children nd)) by (unfold node_children in *; rewrite He; exact Hc).
     destruct (flag_true (hp s2) p) eqn:F2.
     + destruct (Key p F2 L) as (F1 & F0 & NR & El & Hkp).
-      destruct (HI1 p F0 L nd c E Hc0) as [M|[Fc Pc]].
-      * left. rewrite E in El.
-        pose proof (S12 p) as Hs2. unfold same_node_structure in Hs2. rewrite El in Hs2.
-        destruct (lookup (hp s2) p) as [nd2|] eqn:E2; [|contradiction].
-        destruct (c_node _ _ Ck p nd nd2 El E2) as (_ & _ & M2 & _).
-        destruct (g_node _ _ G p nd2 nd3 E2 E3) as (_ & M3 & _ & _). congruence.
-      * right. split.
-        -- destruct (flag_true h3 c) eqn:F3c; [reflexivity|exfalso].
-           assert (NN : ~ ~ Reach (hp s) n c).
-           { intros NRc. rewrite <- F3c in *. assert (flag_true h3 c = true); [|congruence].
-             eapply grows_flag; [exact G|]. rewrite (chk_flag _ _ _ Ck). cbn. unfold flag_true. rewrite (Fr c NRc). exact Fc. }
-           apply NN. intros R. assert (flag_true h3 c = true); [|congruence].
-           eapply plock_reach_flag; [exact P|eapply same_struct_reach; [exact S02|exact R]|].
-           eapply same_struct_some; [exact S02|]. destruct HC as [C1 _]. eapply C1. eapply child_intro; eassumption.
-        -- eapply grows_has_parent; [exact G|]. apply (Hkp s2 c Ck Pc).
-    + right.
-      assert (CE2 : children_exist (hp s2)) by (eapply children_exist_same; [exact S02|apply children_exist_of_closed; exact HC]).
-      destruct (plock_new_closed _ _ _ _ _ CE2 P p F2 F3 nd3 c E3 Hc) as [Fc [Pc|Ho]].
-      * split; assumption.
-      * exfalso. eapply HN.
-        -- destruct HC as [C1 _]. eapply C1. eapply child_intro; eassumption.
-        -- eapply same_struct_hollow; [apply same_struct_sym; exact S03|exact Ho].
+      destruct (HI1 p F0 L nd c E Hc0) as [Fc Pc].
+      split.
+      * destruct (flag_true h3 c) eqn:F3c; [reflexivity|exfalso].
+        assert (NN : ~ ~ Reach (hp s) n c).
+        { intros NRc. assert (flag_true h3 c = true); [|congruence].
+          eapply grows_flag; [exact G|]. rewrite (chk_flag _ _ _ Ck). cbn. unfold flag_true. rewrite (Fr c NRc). exact Fc. }
+        apply NN. intros R. assert (flag_true h3 c = true); [|congruence].
+        eapply plock_reach_flag; [exact P|eapply same_struct_reach; [exact S02|exact R]|].
+        eapply same_struct_some; [exact S02|]. destruct HC as [C1 _]. eapply C1. eapply child_intro; eassumption.
+      * eapply grows_has_parent; [exact G|]. apply (Hkp s2 c Ck Pc).
+    + assert (CE2 : children_exist (hp s2)) by (eapply children_exist_same; [exact S02|apply children_exist_of_closed; exact HC]).
+      apply (plock_new_closed _ _ _ _ _ CE2 P p F2 F3 nd3 c E3 Hc).
   - (* every check passed *)
     inversion U. subst s' out. clear U. rewrite Es2.
-    destruct (struct_inv s (hp s2) S02 HI0 HC HN) as (A & B & C).
-    split; [|exact A|exact B|exact C].
+    destruct (struct_inv s (hp s2) S02 HI0 HC) as (A & B).
+    split; [|exact A|exact B].
     intros p F2 L nd2 c E2 Hc. cbn in *.
     destruct (Key p F2 L) as (F1 & F0 & NR & El & Hkp).
     pose proof (S02 p) as Hs. unfold same_node_structure in Hs. rewrite E2 in Hs.
     destruct (lookup (hp s) p) as [nd|] eqn:E; [|contradiction]. destruct Hs as [Hk He].
     assert (Hc0 : In c (node_children nd)) by (unfold node_children in *; rewrite He; exact Hc).
-    destruct (HI1 p F0 L nd c E Hc0) as [M|[Fc Pc]].
-    + left. destruct (c_node _ _ Ck p nd nd2 El E2) as (_ & _ & M2 & _). congruence.
-    + right.
-      assert (NRc : ~ Reach (hp s) n c).
-      { intros R. destruct (Hall eq_refl c (InSubs c R)) as [sx [Cx Bx]].
-        assert (false = true); [|discriminate].
-        eapply (Blocks p c sx false); try eassumption. eapply child_intro; eassumption. }
-      split.
-      * rewrite (chk_flag _ _ _ Ck). cbn. unfold flag_true. rewrite (Fr c NRc). exact Fc.
-      * apply (Hkp s2 c Ck Pc).
+    destruct (HI1 p F0 L nd c E Hc0) as [Fc Pc].
+    assert (NRc : ~ Reach (hp s) n c).
+    { intros R. destruct (Hall eq_refl c (InSubs c R)) as [sx [Cx Bx]].
+      assert (false = true); [|discriminate].
+      eapply (Blocks p c sx false); try eassumption. eapply child_intro; eassumption. }
+    split.
+    + rewrite (chk_flag _ _ _ Ck). cbn. unfold flag_true. rewrite (Fr c NRc). exact Fc.
+    + apply (Hkp s2 c Ck Pc).
 Qed.
 
 (* ---------------------------------------------------------------------------------------------- local updates of one node *)
@@ -206,58 +182,37 @@ Lemma upd_has_parent : forall h n nd nd' c p, lookup h n = Some nd -> nk nd' = n
   (nk nd = KLazy -> incl (node_children nd) (node_children nd')) ->
   has_parent h c p -> has_parent (upd h n nd') c p.
 Proof.
-  intros h n nd nd' c p E K P L HP. induction HP as [c x p Ex Kx I|c x m p Ex Kx I _ IH].
+  intros h n nd nd' c p E K P L HP. induction HP as [c x p Ex I|c x m p Ex Kx I _ IH].
   - destruct (Nat.eq_dec c n) as [->|Hne].
-    + rewrite E in Ex. inversion Ex. subst x. eapply HP_td; [eapply lookup_upd_same; exact E|congruence|rewrite P; exact I].
-    + eapply HP_td; [rewrite lookup_upd_other; eassumption|exact Kx|exact I].
+    + rewrite E in Ex. inversion Ex. subst x. eapply HP_own; [eapply lookup_upd_same; exact E|rewrite P; exact I].
+    + eapply HP_own; [rewrite lookup_upd_other; eassumption|exact I].
   - destruct (Nat.eq_dec c n) as [->|Hne].
     + rewrite E in Ex. inversion Ex. subst x. eapply HP_lazy; [eapply lookup_upd_same; exact E|congruence|apply (L Kx); exact I|exact IH].
     + eapply HP_lazy; [rewrite lookup_upd_other; eassumption|exact Kx|exact I|exact IH].
 Qed.
 
-Lemma upd_hollow_back : forall h n nd nd' x, lookup h n = Some nd -> nk nd' = nk nd ->
-  (nk nd = KLazy -> incl (node_children nd) (node_children nd')) ->
-  hollow (upd h n nd') x -> hollow h x.
-Proof.
-  intros h n nd nd' x E K L Ho. induction Ho as [c Ec|c y Ec Kc _ IH].
-  - apply Hollow_none. apply (lookup_upd_dom h n nd' c). exact Ec.
-  - destruct (Nat.eq_dec c n) as [->|Hne].
-    + erewrite lookup_upd_same in Ec; [|exact E]. inversion Ec. subst y.
-      eapply Hollow_lazy; [exact E|congruence|]. intros m Hm. apply IH. apply L; [congruence|exact Hm].
-    + rewrite lookup_upd_other in Ec; [|exact Hne]. eapply Hollow_lazy; eassumption.
-Qed.
-
 Lemma Inv_update : forall s n nd nd', Inv s -> lookup (hp s) n = Some nd ->
-  nk nd' = nk nd -> pars nd' = pars nd ->
-  (flg nd' = flg nd \/ (flg nd' = FTrue /\ mm nd' = true)) ->
-  (flg nd = FTrue -> mm nd = true -> mm nd' = true) ->
+  nk nd' = nk nd -> pars nd' = pars nd -> flg nd' = flg nd ->
   (forall c, In c (node_children nd') -> lookup (hp s) c <> None /\ (live s n = true -> live s c = true)) ->
-  (flg nd = FTrue -> mm nd' = true \/ incl (node_children nd') (node_children nd)) ->
+  (flg nd = FTrue -> incl (node_children nd') (node_children nd)) ->
   (nk nd = KLazy -> incl (node_children nd) (node_children nd')) ->
   Inv (with_hp s (upd (hp s) n nd')).
 Proof.
-  intros s n nd nd' [HI1 HI0 [C1 [C2 C3]] HN] E K P Fl Mm Ch Sub Lz.
-  assert (FlagMono : forall x, flag_true (hp s) x = true -> flag_true (upd (hp s) n nd') x = true).
-  { intros x F. unfold flag_true in *. rewrite lookup_upd. destruct (Nat.eqb_spec x n) as [->|Hne]; [|exact F].
-    rewrite E in *. destruct Fl as [Fl|[Fl _]]; rewrite Fl; [exact F|reflexivity]. }
+  intros s n nd nd' [HI1 HI0 [C1 [C2 C3]]] E K P Fl Ch Sub Lz.
+  assert (FlagSame : forall x, flag_true (upd (hp s) n nd') x = flag_true (hp s) x).
+  { intros x. unfold flag_true. rewrite lookup_upd. destruct (Nat.eqb_spec x n) as [->|Hne]; [|reflexivity].
+    rewrite E, Fl. reflexivity. }
   split.
-  - intros p F L nd2 c E2 Hc. cbn in *.
+  - intros p F L nd2 c E2 Hc. cbn in *. rewrite FlagSame in F.
     destruct (Nat.eq_dec p n) as [->|Hne].
     + erewrite lookup_upd_same in E2; [|exact E]. inversion E2. subst nd2.
-      destruct (mm nd') eqn:M'; [left; reflexivity|right].
       assert (F0 : flg nd = FTrue).
-      { unfold flag_true in F. erewrite lookup_upd_same in F; [|exact E].
-        destruct Fl as [Fl|[_ Fl]]; [|congruence]. rewrite <- Fl. destruct (flg nd'); cbn in F; congruence. }
-      destruct (Sub F0) as [Sx|Sx]; [congruence|].
-      assert (Fn : flag_true (hp s) n = true) by (eapply flag_true_intro; eassumption).
-      destruct (HI1 n Fn L nd c E (Sx c Hc)) as [M|[Fc Pc]].
-      * pose proof (Mm F0 M). congruence.
-      * split; [apply FlagMono; exact Fc|eapply upd_has_parent; eassumption].
+      { unfold flag_true in F. rewrite E in F. destruct (flg nd); cbn in F; congruence. }
+      destruct (HI1 n F L nd c E (Sub F0 c Hc)) as [Fc Pc].
+      split; [rewrite FlagSame; exact Fc|eapply upd_has_parent; eassumption].
     + rewrite lookup_upd_other in E2; [|exact Hne].
-      assert (F0 : flag_true (hp s) p = true).
-      { unfold flag_true in *. rewrite lookup_upd_other in F; [exact F|exact Hne]. }
-      destruct (HI1 p F0 L nd2 c E2 Hc) as [M|[Fc Pc]]; [left; exact M|right].
-      split; [apply FlagMono; exact Fc|eapply upd_has_parent; eassumption].
+      destruct (HI1 p F L nd2 c E2 Hc) as [Fc Pc].
+      split; [rewrite FlagSame; exact Fc|eapply upd_has_parent; eassumption].
   - intros p c Hc L. cbn in *. destruct (child_lookup _ _ _ Hc) as [nd2 [E2 Hin]].
     destruct (Nat.eq_dec p n) as [->|Hne].
     + erewrite lookup_upd_same in E2; [|exact E]. inversion E2. subst nd2. apply (Ch c Hin). exact L.
@@ -269,15 +224,12 @@ Proof.
       * erewrite lookup_upd_same in E2; [|exact E]. inversion E2. subst nd2. apply (Ch c Hin).
       * rewrite lookup_upd_other in E2; [|exact Hne]. eapply C1. eapply child_intro; eassumption.
     + split; [|exact C3]. intros m Hm. cbn in *. apply C2. intros Hnone. apply Hm. apply lookup_upd_dom. exact Hnone.
-  - intros m Hm Ho. cbn in *. eapply HN.
-    + intros Hnone. apply Hm. apply lookup_upd_dom. exact Hnone.
-    + eapply upd_hollow_back; eassumption.
 Qed.
 
 (* ---------------------------------------------------------------------------------------------- allocation *)
 Lemma Inv_alloc_leaf : forall s, Inv s -> Inv (fst (alloc_leaf s)).
 Proof.
-  intros s [HI1 HI0 [C1 [C2 C3]] HN]. unfold alloc_leaf. cbn. split; [exact HI1|exact HI0| |exact HN].
+  intros s [HI1 HI0 [C1 [C2 C3]]]. unfold alloc_leaf. cbn. split; [exact HI1|exact HI0|].
   split; [exact C1|split]; cbn.
   - intros n Hn. specialize (C2 n Hn). lia.
   - intros d Hd. specialize (C3 d Hd). lia.
@@ -308,27 +260,16 @@ Qed.
 
 Lemma alloc_has_parent : forall s nd c p, closed_heap s -> has_parent (hp s) c p -> has_parent (hp (fst (alloc_node s nd))) c p.
 Proof.
-  intros s nd c p HC HP. induction HP as [c x p Ex Kx I|c x m p Ex Kx I _ IH].
-  - eapply HP_td; [rewrite lookup_alloc_old; [exact Ex|exact HC|congruence]|exact Kx|exact I].
+  intros s nd c p HC HP. induction HP as [c x p Ex I|c x m p Ex Kx I _ IH].
+  - eapply HP_own; [rewrite lookup_alloc_old; [exact Ex|exact HC|congruence]|exact I].
   - eapply HP_lazy; [rewrite lookup_alloc_old; [exact Ex|exact HC|congruence]|exact Kx|exact I|exact IH].
-Qed.
-
-Lemma alloc_hollow_back : forall s nd x, closed_heap s -> lookup (hp s) x <> None ->
-  hollow (hp (fst (alloc_node s nd))) x -> hollow (hp s) x.
-Proof.
-  intros s nd x HC Hx Ho. revert Hx. induction Ho as [c Ec|c y Ec Kc _ IH]; intros Hx.
-  - rewrite lookup_alloc_old in Ec; [congruence|exact HC|exact Hx].
-  - rewrite lookup_alloc_old in Ec; [|exact HC|exact Hx].
-    eapply Hollow_lazy; [exact Ec|exact Kc|]. intros m Hm. apply IH; [exact Hm|].
-    destruct HC as [C1 _]. eapply C1. eapply child_intro; eassumption.
 Qed.
 
 Lemma Inv_alloc_node : forall s nd, Inv s -> flg nd <> FTrue ->
   (forall c, In c (node_children nd) -> lookup (hp s) c <> None /\ live s c = true) ->
-  (nk nd = KLazy -> exists c, In c (node_children nd)) ->
   Inv (fst (alloc_node s nd)).
 Proof.
-  intros s nd [HI1 HI0 HC HN] Fl Ch Nh. pose proof HC as [C1 [C2 C3]].
+  intros s nd [HI1 HI0 HC] Fl Ch. pose proof HC as [C1 [C2 C3]].
   assert (FT : forall x, flag_true (hp (fst (alloc_node s nd))) x = true -> flag_true (hp s) x = true /\ x <> nxt s).
   { intros x F. unfold flag_true in F. rewrite lookup_alloc_cases in F; [|exact HC].
     destruct (Nat.eqb_spec (nxt s) x) as [Heq|Hne].
@@ -337,7 +278,7 @@ Proof.
   split.
   - intros p F L nd2 c E2 Hc. destruct (FT p F) as [F0 Hne].
     rewrite lookup_alloc_cases in E2; [|exact HC]. destruct (Nat.eqb_spec (nxt s) p); [congruence|].
-    destruct (HI1 p F0 L nd2 c E2 Hc) as [M|[Fc Pc]]; [left; exact M|right]. split.
+    destruct (HI1 p F0 L nd2 c E2 Hc) as [Fc Pc]. split.
     + unfold flag_true in *. rewrite lookup_alloc_old; [exact Fc|exact HC|].
       eapply C1. eapply child_intro; eassumption.
     + apply alloc_has_parent; assumption.
@@ -356,13 +297,4 @@ Proof.
       * intros m Hm. rewrite lookup_alloc_cases in Hm; [|exact HC]. cbn.
         destruct (Nat.eqb_spec (nxt s) m) as [Heq|Hne]; [lia|]. specialize (C2 m Hm). lia.
       * intros d Hd. cbn in *. specialize (C3 d Hd). lia.
-  - intros m Hm Ho. rewrite lookup_alloc_cases in Hm; [|exact HC].
-    destruct (Nat.eqb_spec (nxt s) m) as [Heq|Hne]; [subst m|].
-    + (* the new node: a lazy stack with at least one (existing, hence non-hollow) member *)
-      inversion Ho as [c Ec|c y Ec Kc Hall]; subst.
-      * rewrite lookup_alloc_new in Ec; [discriminate|exact HC].
-      * rewrite lookup_alloc_new in Ec; [|exact HC]. inversion Ec. subst y.
-        destruct (Nh Kc) as [c Hc]. eapply (HN c); [apply (Ch c Hc)|].
-        eapply alloc_hollow_back; [exact HC|apply (Ch c Hc)|apply Hall; exact Hc].
-    + eapply HN; [exact Hm|]. eapply alloc_hollow_back; eassumption.
 Qed.
